@@ -211,9 +211,7 @@ def spec_color(text):
             return col
         if len(col) == 3 and is_hex(col):
             return col[0] * 2 + col[1] * 2 + col[2] * 2
-        if len(col) in (3, 6):
-            raise Abstain()          # not hexadecimal: accepted by the code (finding C19-F1), no spec
-        raise ValueError(text)
+        raise ValueError(text)       # not 3 or 6 hexadecimal digits: wrong format
     if text in ("", "default"):
         return text
     raise ValueError(text)
@@ -393,6 +391,15 @@ def oracle(case, res):
         except Exception as e:  # noqa
             return ("decoding the emitted sequence %r raised %s: %s" % (seq, type(e).__name__, e),
                     {"op": "escape-code", "family": "decode-raise", "depth": depth})
+        # the sequence starts with a reset: a dirty prior decoder state must not matter
+        dirty = "\x1b[1;3;4;5;7;8;9;31;42my"
+        try:
+            back2 = with_watchdog(lambda: decode_seq(dirty + seq), 5)
+        except Exception as e:  # noqa
+            back2 = "%s: %s" % (type(e).__name__, e)
+        if back2 != back:
+            return ("after %r the sequence %r decodes to %r, from the reset state to %r" % (dirty, seq, tuple(back2) if not isinstance(back2, str) else back2, tuple(back)),
+                    {"op": "escape-code", "family": "prior-state", "depth": depth})
         flags = tuple(bool(v) for v in a[2:])
         if tuple(back[2:]) != flags:
             return ("flags decode to %r, expected %r (depth %d, %r)" % (tuple(back[2:]), flags, depth, seq),
@@ -482,6 +489,13 @@ def oracle(case, res):
         return None
     if op == 13:
         if res[0] != 0:
+            try:
+                exp = spec_cascade([(unS(n), unS(x)) for n, x in case[1]], unS(case[2]), P["DEFAULT"])
+            except Abstain:
+                return None
+            if not isinstance(exp, str):
+                return ("resolve/encode/decode raised %r for a well-formed sheet and style string" % (res,),
+                        {"op": "end-to-end", "family": "raise"})
             return None
         a, back = dec_attrs(res[1]), dec_attrs(res[3])
         exp = (canon_color(a.color), canon_color(a.bgcolor))
@@ -513,7 +527,7 @@ STYLES_RAND = STYLES_SMALL + ["", "underline", "nounderline", "strike", "blink n
                               "[noinherit]", "#00ff00 underline", "BOLD"]
 PARTS_RAND = PARTS_SMALL + ["class:c", "class:a.b.c", "class:A", "class:A.B,b", "class:", "class:,a", "class:a,,b", "class:b.a",
                             "bold", "noinherit", "bg:ansired", "fg:#123456", "#fff", "bogus", "[x]", "class:a-b_1", "strike",
-                            "reverse", "hidden", "nohidden", "underline", "bg:default", "ansibrown", "class:a.b,a"]
+                            "reverse", "hidden", "nohidden", "underline", "bg:default", "ansibrown", "class:a.b,a", "#zzzzzz", "bg:#xyz"]
 COLORS_ENC = ["", "ansired", "ansidefault", "ansibrightblack", "ansiwhite", "ff0000", "FE0000", "00cd00", "000000", "e5e5e5",
               "123456", "0a0B0c", "default"]
 COLORS_ODD = ["zzzzzz", "purple", "+12345", "-12345", "0x1234", "1_2345", "12 456", "__1234", "0x_123", "ff00", "ansiteal", "#ff0000", "1234567", "12345_"]
@@ -665,6 +679,8 @@ def gen_decode(chk, dist):
                 t += rng.choice(["", "x", "yz"])
         else:
             t = "".join(rng.choice(alpha) for _ in range(rng.randint(0, 14)))
+        if rng.random() < 0.1:
+            t += "\x1b[" + rng.choice(["0031", "000", "00000000000038;5;0016", "123456", "99999;1", "0" * 30 + "1", "9" * 40, "10000;4"]) + "mz"
         t = t.replace("999C", "9C").replace("99C", "9C")
         cases.append([4, S(t)])
         dist["ansi_text"] += 1
